@@ -105,8 +105,9 @@ pub fn map_code(check: &str, v: &Viol) -> Option<&'static str> {
         },
         "C17" => match g {
             "value" | "unexpected_panic" => Some("C17.value"),
-            "events_missing" | "events_extra" | "event_args" | "lineage" | "branch_order" | "capture_order" => Some("C17.events"),
-            "thread_name" => Some("C17.thread_name"),
+            "events_missing" | "events_extra" | "event_args" | "lineage" | "branch_order" | "capture_order" | "capture_late" | "capture_early" | "barrier" => Some("C17.events"),
+            "thread_name" | "thread_not_distinct" | "single_branch_off_caller" => Some("C17.thread_name"),
+            "deadlock" | "hang" => Some("C17.nested_not_concurrent"),
             _ => None,
         },
         "C18" => match g {
